@@ -268,7 +268,7 @@ func (s *scen) readAll(b int) (ks []int, tags []string, offs []int, n, chk, ok i
 }
 
 // maxFullLookup: universes up to this size get a Lookup of every key in a recheck
-const maxFullLookup = 700
+const maxFullLookup = 450
 
 // recheck reads a frozen buffer again after the merge that produced buffer `after` (0 = end of
 // the scenario); full = also Lookup every key of the universe
@@ -756,8 +756,8 @@ func chainScenario(tr *vh.Trace, rnd *rand.Rand, n int, rounds int, style nastyk
 // keys (or short runs) between A's keys, and a few updates / deletes of A's own keys, so that
 // most of A's chunks are passed through and some are output slot by slot in between. Two or
 // three more merges with sparse layers follow on the result. uniform: short inputs (3..6 chunks)
-// where tiny / boundary / random / full chunk sizes are equally likely, so that all short
-// sequences of size classes occur, including at the start of the merge (the first chunk is
+// whose chunks alternate between large (13..18: passed through, flushing the merge buffer) and
+// small (2..12: copied to the merge buffer) with an often tiny first chunk (the first chunk is
 // always output slot by slot and determines the capacity of the merge buffer).
 func shapedScenario(tr *vh.Trace, rnd *rand.Rand, n int, nother int, style nastykeys.Style, uniform bool) {
 	psp := []float64{0.02, 0.05, 0.12}[rnd.Intn(3)] // share of ranks reserved for the other inputs
@@ -783,23 +783,35 @@ func shapedScenario(tr *vh.Trace, rnd *rand.Rand, n int, nother int, style nasty
 	// A: ascending adds, then thin out group by group
 	ops := s.genOps(aRanks, 0, 0)
 	group := []int{18, 18, 18, 36, 12}[rnd.Intn(5)]
+	if uniform {
+		group = 18
+	}
 	if n >= 1024 {
 		group = []int{36, 36, 72, 18}[rnd.Intn(4)]
 	}
 	var dels []op
+	prevSmall := false
 	for at := 0; at < len(aRanks); at += group {
 		end := min(at+group, len(aRanks))
 		var keep int
-		x := rnd.Intn(6)
-		if uniform {
-			x = rnd.Intn(4) // few chunks: every size class equally likely, also for the first chunk
-		}
-		switch x {
-		case 0:
+		switch x := rnd.Intn(6); {
+		case uniform:
+			// alternate large (passed through with a flush) and small (appended to the merge buffer)
+			// chunks; the first chunk, output slot by slot, is often tiny (small merge buffer)
+			switch {
+			case at == 0 && rnd.Intn(2) == 0:
+				keep = 1 + rnd.Intn(3)
+			case prevSmall || rnd.Intn(5) < 2:
+				keep = group/2 + 4 + rnd.Intn(group/2-3) // large
+			default:
+				keep = 2 + rnd.Intn(group/2+2) // small, up to and just above the boundary
+			}
+			prevSmall = keep <= group/2+3
+		case x == 0:
 			keep = 1 + rnd.Intn(3)
-		case 1:
+		case x == 1:
 			keep = group/2 - 3 + rnd.Intn(4) // around the small / large boundary
-		case 2:
+		case x == 2:
 			keep = 1 + rnd.Intn(group)
 		default:
 			keep = group // untouched
